@@ -249,8 +249,21 @@ func mQClass(q string) string {
 	return "unknown"
 }
 
+var mavenMemo = map[string]*mItem{}
+
+func mavenParsed(s string) *mItem {
+	if p, hit := mavenMemo[s]; hit {
+		return p
+	}
+	p := MavenParse(strings.TrimSpace(s))
+	if len(mavenMemo) < 1<<20 {
+		mavenMemo[s] = p
+	}
+	return p
+}
+
 func MavenCompare(a, b string) (int, string) {
-	return mCompare(MavenParse(strings.TrimSpace(a)), MavenParse(strings.TrimSpace(b)))
+	return mCompare(mavenParsed(a), mavenParsed(b))
 }
 
 var mavenConventional = regexp.MustCompile(`(?i)^[0-9]+(\.[0-9]+){0,3}(([.-][a-z]+([.-]?[0-9]+)?)|(-[0-9]+))?$`)
